@@ -8,6 +8,7 @@ CONSTANTS
   Hardened = TRUE
   StopAtAuth = FALSE
   CtLenExact = TRUE
+  StoreAfterUid = TRUE
   LenChoices <- LenChoicesGen
   TruncMax = 2
 INVARIANTS AuthenticOnly
